@@ -167,6 +167,20 @@ def analyse_selection(args):
         g["dominating_refusals"] = ok
     out["guards"] = g
     out["dispatch"] = dispatch(m, info)
+    # fail-closed structure of this selection's own code (the variant functions differ from the full build by design)
+    from . import c05
+    from .. import summ
+    sub5 = Check("C19", "quick")
+    sub5.known = {}
+    try:
+        S5 = summ.Summaries(m)
+        roles = c05.no_err_after_write(sub5, m, S5, "+".join(sel))
+        c05.no_write_after_err(sub5, m, S5, "+".join(sel), roles)
+        c05.err_set(sub5, m, S5, "+".join(sel), roles)
+    except AnalysisBroken as e:
+        out["c05_broken"] = str(e)
+    out["c05_viol"] = [(v["rule"], v["instance"], v["message"], v["loc"]) for v in sub5.violations]
+    out["c05_ok"] = sum(r["ok"] for r in sub5.rules.values())
     txt = open(os.path.join(info["incdir"], "crypt.h")).read()
     mm = re.search(r"#define\s+CRYPT_GENSALT_IMPLEMENTS_DEFAULT_PREFIX\s+(\d+)", txt)
     out["implements_default"] = int(mm.group(1)) if mm else None
@@ -235,6 +249,7 @@ def run(chk, tier):
                  ("R-CFG-SAMECODE", "functions reachable from enabled rows are structurally identical to the full build"),
                  ("R-CFG-UNREACHABLE", "disabled methods' entry points unreachable unless shared, then guarded"),
                  ("R-CFG-DISPATCH", "get_hashfn, interpreted abstractly on <prefix><any clean tail>, returns exactly the row of an enabled method and NULL for every prefix without an enabled row"),
+                 ("R-CFG-FAILCLOSED", "C05's structural fail-closed rules (no errno after a write, no write after a failure code, every return writes or sets errno) hold in the code of every selection"),
                  ("R-CFG-GUARDS", "shared yescrypt code refuses the disabled sibling's prefix before hashing"),
                  ("R-CFG-DEFAULT", "default prefix / preferred method / header macro follow hashes.conf; C18 rules hold per selection")):
         chk.rule(r, d)
@@ -342,6 +357,12 @@ def run(chk, tier):
                          "lib/crypt.c", {"selection": sel})
             else:
                 chk.ok("R-CFG-DISPATCH", "%s:%s" % (tag, c["name"]))
+        # fail-closed structure per selection
+        if res.get("c05_broken"):
+            raise AnalysisBroken("selection %s: %s" % (sname, res["c05_broken"]))
+        for rule, inst, msg, loc in res["c05_viol"]:
+            chk.fail("R-CFG-FAILCLOSED", "%s:%s:%s" % (tag, rule, inst), "selection {%s}: %s" % (",".join(sel), msg), loc, {"selection": sel})
+        chk.count("R-CFG-FAILCLOSED", res["c05_ok"], [tag + ":c05"])
         # default
         dflt = next((byname[n]["prefix"] for n in names if n in sel and "DEFAULT" in byname[n]["flags"]), None)
         if (res["implements_default"] == 1) != (dflt is not None):
